@@ -27,6 +27,7 @@ fn main() {
     let g = grammar::translate(&repo);
     util::write_if_changed(&out.join("ImapGrammar.v"), &g.coq);
     util::write_if_changed(&out.join("grammar_report.txt"), &g.report);
+    util::write_if_changed(&out.join("gen_fns.rs"), &g.fns_rs);
     let s = sites::inventory(&repo);
     util::write_if_changed(&out.join("PanicSites.v"), &s);
     let t = tables::translate(&repo);
